@@ -354,9 +354,12 @@ pub fn prop(tier: Tier, seed: u64) -> Prop {
         let crop = crops[d[2]];
         let alg = a1[d[3]];
         ctx.sample(|| json!({"n_in": n_in, "n_out": n_out, "crop": [crop.start, crop.len], "alg": format!("{:?}", alg), "contents": "identity, constants, adv+/-(j), extremes, lcg", "types": "all 13", "backends": format!("{:?}", b1)}));
+        if ctx.describe_only {
+            return;
+        }
         check_1d(ctx, n_in, crop, n_out, alg, &ALL_PT, &b1, lcg_rows, seed, "C01");
         ctx.nontrivial += 1;
-    }));
+    }).isolated());
 
     // ---- sparse long-kernel family
     let long_in: Vec<u32> = tier.pick(vec![64, 255, 1000], vec![64, 100, 255, 256, 1000, 4097]);
@@ -368,11 +371,14 @@ pub fn prop(tier: Tier, seed: u64) -> Prop {
         decode(idx, &d2, &mut d);
         let (n_in, n_out, f) = (li[d[0]], lo[d[1]], FILT[d[2]]);
         ctx.sample(|| json!({"n_in": n_in, "n_out": n_out, "alg": format!("Conv({:?})", f)}));
+        if ctx.describe_only {
+            return;
+        }
         let pts = [PT::U8, PT::U8x3, PT::U8x4, PT::U16, PT::U16x3, PT::I32, PT::F32, PT::F32x2];
         // only a few content rows matter here: use the generic rows but a type subset
         check_1d(ctx, n_in, Crop1 { start: 0.0, len: n_in as f64 }, n_out, Alg::Conv(f), &pts, &b2, 1, seed, "C01");
         ctx.nontrivial += 1;
-    }));
+    }).isolated());
 
     // ---- 2-D family incl. SuperSampling
     let algs2 = all_algs(&[1, 2, 3]);
@@ -396,9 +402,12 @@ pub fn prop(tier: Tier, seed: u64) -> Prop {
         };
         let alg = a2[d[5]];
         ctx.sample(|| json!({"src": [sw, sh], "dst": [dw, dh], "crop": [cx.start, cy.start, cx.len, cy.len], "alg": format!("{:?}", alg), "contents": ["extremes", "checker", "lcg"], "types": "all 13"}));
+        if ctx.describe_only {
+            return;
+        }
         check_2d(ctx, sw, sh, dw, dh, cx, cy, alg, &ALL_PT, &b3, 3, seed);
         ctx.nontrivial += 1;
-    }));
+    }).isolated());
 
     // ---- larger 2-D SuperSampling cases (two-step path needs a scale > 1.2*m)
     let big: Vec<(u32, u32, u32, u32)> = vec![(8, 8, 4, 4), (9, 7, 2, 3), (16, 5, 3, 2), (12, 12, 5, 4), (7, 13, 2, 2), (20, 20, 3, 3), (13, 9, 4, 3), (33, 4, 5, 1)];
@@ -410,11 +419,14 @@ pub fn prop(tier: Tier, seed: u64) -> Prop {
         let (sw, sh, dw, dh) = big[d[0]];
         let alg = Alg::SS(FILT[d[1]], [1u8, 2, 3, 255][d[2]]);
         ctx.sample(|| json!({"src": [sw, sh], "dst": [dw, dh], "alg": format!("{:?}", alg)}));
+        if ctx.describe_only {
+            return;
+        }
         for (cx, cy) in [(Crop1 { start: 0.0, len: sw as f64 }, Crop1 { start: 0.0, len: sh as f64 }), (Crop1 { start: 0.5, len: sw as f64 - 1.0 }, Crop1 { start: 1.0, len: sh as f64 - 1.0 })] {
             check_2d(ctx, sw, sh, dw, dh, cx, cy, alg, &ALL_PT, &b4, 3, seed);
         }
         ctx.nontrivial += 1;
-    }));
+    }).isolated());
 
     p.rule = "1-D: every (n_in,n_out) in (1..N)^2 x CROP1(n_in) (13 members incl. fractional, sub-pixel and edge-flush boxes) x 7 filters x {Convolution, Interpolation}, each executed for all 13 pixel types x back-ends x both orientations on content rows {impulse at every position, constants, adv+/-(j) for every output sample, extremes, lcg}; long kernels n_in up to 4097; 2-D: every (w_in,h_in,w_out,h_out) in (1..M)^4 x 5 crop pairs x 35 algorithms (incl. SuperSampling m=1,2,3) x 3 contents x 13 types x back-ends, both pass orders accepted. Oracle: ideal resampler in f64 interval arithmetic, bound 1/2 + Σ|x|2^-(p+1) per pass (p read from the implementation), 4 f32 ulps for floats".into();
     p.bounds = json!({"N": n, "M": m, "lcg_rows": lcg_rows, "long_n_in": long_in});
